@@ -1406,11 +1406,11 @@ class Sim:
                 if "func" not in got or "iterable" not in got:
                     raise Unsup("pool.%s arguments" % name)
                 return self.launch(p, got["func"], got["iterable"], node, sync=(name in ("map", "starmap")), ordered=(name != "imap_unordered"),
-                                   star=(name == "starmap"))
+                                   star=(name == "starmap"), chunk=got.get("chunksize"), how=name)
             if getattr(p, "executor", False):
                 if name == "map" and args and len(args) == 2 and not (set(kws) - {"chunksize", "timeout"}):
                     # Executor.map: results in task order; leaving the `with` block / shutdown() waits for every task
-                    return self.launch(p, args[0], args[1], node, sync=False, ordered=True)
+                    return self.launch(p, args[0], args[1], node, sync=False, ordered=True, chunk=kws.get("chunksize"), how="Executor.map")
                 if name == "shutdown" and kws.get("wait", args[0] if args else TRUE) == TRUE:
                     self.pool_end(p, node)
                     return NONE
@@ -1641,10 +1641,12 @@ class Sim:
                 return [self.call_value(a[0], list(t), {}, self.cur_node) for t in zip(*parts)]
         return None
 
-    def launch(self, pool, func, iterable, node, sync, ordered, star=False):
+    def launch(self, pool, func, iterable, node, sync, ordered, star=False, chunk=None, how=None):
         L = Launch(len(self.launches) + 1)
         self.launches.append(L)
         L.pid, L.func, L.node, L.ordered = pool.pid, func, node, ordered
+        L.how = how
+        L.chunk = None if chunk is None else self.snap(chunk, record=False)       # the chunksize argument as given (None: left out)
         elem, cnt, _ = self.iter_desc(iterable)
         L.count = cnt
         L.seq0 = self.tick()
